@@ -241,7 +241,16 @@ def _check(c, orig, model, input_db, span, kwargs, result, case):
     # ---- 5. deviation mode == level mode (-) steady state
     # (with unit roots only under fixed_unknown: fixed_zero pins the unit-root component of the LEVEL in one mode and of the
     # DEVIATION in the other, which are different initial conditions whenever the steady state loads on the unit-root block)
-    if not deviation and (n_unit == 0 or (kwargs.get("diffuse_method", "fixed_unknown") == "fixed_unknown" and n_observed > 0)) and not kwargs.get("stds_from_data") and case.get("do_deviation_twin"):
+    twin_ok = n_unit == 0
+    if n_unit > 0 and kwargs.get("diffuse_method", "fixed_unknown") == "fixed_unknown" and n_observed > 0:
+        # a unit root next to a constant (an accidental one: 0.7*x = 0.7*x[-1] - 0.62) has no steady state to subtract
+        try:
+            twin_ok = case["family"] != "L" or bool(linre.linear_steady_exists(spec, {p["name"]: p["value"] for p in spec["params"]}, True))
+        except Exception:
+            twin_ok = False
+        if not twin_ok:
+            c.inconc("smooth:deviation-twin:no-steady-state-exists")
+    if not deviation and twin_ok and not kwargs.get("stds_from_data") and case.get("do_deviation_twin"):
         try:
             sdb = ir.Databox.steady(model, ir.Span(span[0], span[-1]))
             ddb = input_db.copy()
